@@ -29,6 +29,7 @@ func runC04(c *core.Ctx) {
 	c.RuleDoc("R04.2", "no transformed possibly-invalid name handed to a file system / returned by Mount")
 	c.RuleDoc("R04.3", "invalid name => ErrInvalid-class error on every reachable return")
 	c.RuleDoc("R04.4", "ErrInvalid only under allowed guard kinds")
+	c.RuleDoc("R04.6", "no valid name is refused because it merely starts with another name (element-boundary prefix tests)")
 	c.RuleDoc("R04.5", "separator discipline")
 	for _, p := range c.Progs {
 		c.SetProg(p)
@@ -40,12 +41,15 @@ func runC04(c *core.Ctx) {
 		r04RejectClass(c, p, va)
 		r04Converse(c, p)
 		r04Separators(c, p)
+		// R04.6 (converse): a name relation that refuses names is tested on element boundaries: "log.1" is not below "log"
+		boundaryTests(c, p, "R04.6", "keyvalue", "mount", "")
 	}
 	c.Floor("R04.1", 60)
 	c.Floor("R04.2", 2)
 	c.Floor("R04.3", 40)
 	c.Floor("R04.4", 8)
 	c.Floor("R04.5", 2)
+	c.Floor("R04.6", 2)
 }
 
 func staticCallerCount(p *load.Program) map[*ssa.Function]int {
